@@ -28,6 +28,8 @@ struct Model {
 struct World {
     xot: Xot,
     m: Model,
+    /// html5() has been called on this store: it registers the HTML element names, which the model does not list
+    html5: bool,
 }
 
 type Bad = (String, String); // (clause, what)
@@ -49,7 +51,7 @@ impl World {
         m.names_inv.insert(xot.xml_space_name(), ("space".into(), XML_NS.into()));
         m.names.insert(("id".into(), XML_NS.into()), xot.xml_id_name());
         m.names_inv.insert(xot.xml_id_name(), ("id".into(), XML_NS.into()));
-        World { xot, m }
+        World { xot, m, html5: false }
     }
 
     fn reg_ns(&mut self, uri: &str, how: &str) -> Result<NamespaceId, Bad> {
@@ -247,7 +249,7 @@ fn short_history(rng: &mut Rng, ctx: &mut Ctx) -> Result<(), (Bad, Vec<String>)>
             fresh += 1;
             format!("f{}_{}", fresh, rng.below(1000))
         };
-        let which = rng.below(16);
+        let which = rng.below(22);
         // drive either the original or (after cloning) the clone
         let target: &mut World = match (&mut clone, rng.bool()) {
             (Some(c), true) => c,
@@ -439,6 +441,124 @@ fn short_history(rng: &mut Rng, ctx: &mut Ctx) -> Result<(), (Bad, Vec<String>)>
                 }
                 ctx.count("hostile_parses_read_back");
             }
+            16..=21 => {
+                // the xmlname layer on top of the registration calls: CreateName / CreateNamespace / OwnedName
+                use xot::xmlname::{CreateName, CreateNamespace, NameStrInfo, OwnedName};
+                let ns = hot[rng.below(hot.len())].to_string();
+                let pfx = hot[rng.below(hot.len())].to_string();
+                match which {
+                    16 => {
+                        log.push(format!("CreateName::name({:?})", s));
+                        let id = match guard(|| CreateName::name(&mut target.xot, &s).name_id()) {
+                            Ok(i) => i,
+                            Err(p) => return Err((("panic".into(), p.short()), log.clone())),
+                        };
+                        tr!(target.note_name(&s, "", id, "CreateName::name"));
+                    }
+                    17 => {
+                        log.push(format!("CreateNamespace::new({:?}, {:?}); CreateName::namespaced({:?}, ..)", pfx, ns, s));
+                        let r = guard(|| {
+                            let cn = CreateNamespace::new(&mut target.xot, &pfx, &ns);
+                            let n = CreateName::namespaced(&mut target.xot, &s, &cn);
+                            (cn.prefix_id(), cn.namespace_id(), n.name_id())
+                        });
+                        let (pid, nid, id) = match r {
+                            Ok(x) => x,
+                            Err(p) => return Err((("panic".into(), p.short()), log.clone())),
+                        };
+                        tr!(target.note_prefix(&pfx, pid, "CreateNamespace::new"));
+                        tr!(target.note_ns(&ns, nid, "CreateNamespace::new"));
+                        tr!(target.note_name(&s, &ns, id, "CreateName::namespaced"));
+                    }
+                    18 => {
+                        // parse_full_name with a lookup that binds the empty prefix (a default namespace) or not
+                        let dflt = if rng.bool() { Some(ns.clone()) } else { None };
+                        let prefixed = rng.bool() && !pfx.is_empty() && !pfx.contains(':');
+                        let full = if prefixed { format!("{}:{}", pfx, s) } else { s.clone() };
+                        if s.contains(':') {
+                            continue;
+                        }
+                        log.push(format!("CreateName::parse_full_name({:?}, default -> {:?}, {:?} -> \"urn:A\")", full, dflt, pfx));
+                        let d_id = match &dflt {
+                            Some(d) => Some(tr!(target.reg_ns(d, "add_namespace"))),
+                            None => None,
+                        };
+                        let p_id = tr!(target.reg_ns("urn:A", "add_namespace"));
+                        let pfx2 = pfx.clone();
+                        let r = guard(|| CreateName::parse_full_name(&mut target.xot, &full, |p| if p.is_empty() { d_id } else if p == pfx2 { Some(p_id) } else { None }).map(|n| n.name_id()));
+                        match r {
+                            Err(p) => return Err((("panic".into(), p.short()), log.clone())),
+                            Ok(Ok(id)) => {
+                                let want_ns = if prefixed { "urn:A".to_string() } else { dflt.clone().unwrap_or_default() };
+                                if !prefixed && dflt.is_none() {
+                                    return Err((("xmlname-layer".into(), format!("parse_full_name({:?}) succeeded although the lookup knows no binding for the empty prefix", full)), log.clone()));
+                                }
+                                tr!(target.note_name(&s, &want_ns, id, "CreateName::parse_full_name"));
+                            }
+                            Ok(Err(_)) => {
+                                if prefixed || dflt.is_some() {
+                                    return Err((("xmlname-layer".into(), format!("parse_full_name({:?}) failed although the lookup binds its prefix", full)), log.clone()));
+                                }
+                            }
+                        }
+                    }
+                    19 => {
+                        log.push(format!("OwnedName::new({:?}, {:?}, {:?}).to_ref()", s, ns, pfx));
+                        let on = OwnedName::new(s.clone(), ns.clone(), pfx.clone());
+                        let r = guard(|| {
+                            let r = on.to_ref(&mut target.xot);
+                            (r.name_id(), r.namespace_id(), r.prefix_id(), r.local_name().to_string(), r.namespace().to_string(), r.prefix().to_string())
+                        });
+                        let (id, nid, pid, l, u, p) = match r {
+                            Ok(x) => x,
+                            Err(p) => return Err((("panic".into(), p.short()), log.clone())),
+                        };
+                        if (l.as_str(), u.as_str(), p.as_str()) != (s.as_str(), ns.as_str(), pfx.as_str()) {
+                            return Err((("xmlname-layer".into(), format!("to_ref of ({:?}, {:?}, {:?}) reads back as ({:?}, {:?}, {:?})", s, ns, pfx, l, u, p)), log.clone()));
+                        }
+                        tr!(target.note_prefix(&pfx, pid, "OwnedName::to_ref"));
+                        tr!(target.note_ns(&ns, nid, "OwnedName::to_ref"));
+                        tr!(target.note_name(&s, &ns, id, "OwnedName::to_ref"));
+                    }
+                    20 => {
+                        log.push(format!("OwnedName::new({:?}, {:?}, {:?}).maybe_to_ref()", s, ns, pfx));
+                        let on = OwnedName::new(s.clone(), ns.clone(), pfx.clone());
+                        let want = target.m.names.get(&(s.clone(), ns.clone())).copied();
+                        let ns_known = target.m.nss.contains_key(&ns);
+                        let r = guard(|| on.maybe_to_ref(&target.xot).map(|r| (r.name_id(), r.prefix_id())));
+                        match r {
+                            Err(p) => return Err((("panic".into(), p.short()), log.clone())),
+                            Ok(got) => {
+                                let unknown_to_model = want.is_none() && got.is_some() && target.html5;
+                                if got.map(|g| g.0) != want && !unknown_to_model && !target.m.maybe.contains(&s) && !target.m.maybe.contains(&ns) {
+                                    let what = format!("maybe_to_ref of {{{}}}{} gives {:?}; registered: {:?} (namespace registered: {})", ns, s, got.map(|_| "Some"), want.map(|_| "Some"), ns_known);
+                                    return Err((("xmlname-layer".into(), what), log.clone()));
+                                }
+                                if let Some((_, pid)) = got {
+                                    let want_p = target.m.prefixes.get(&pfx).copied().unwrap_or(target.xot.empty_prefix());
+                                    if pid != want_p && !target.m.maybe.contains(&pfx) {
+                                        return Err((("xmlname-layer".into(), format!("maybe_to_ref reports another prefix id than the one registered for {:?}", pfx)), log.clone()));
+                                    }
+                                }
+                            }
+                        }
+                    }
+                    _ => {
+                        log.push(format!("OwnedName::new({:?}, {:?}, {:?}).to_create()", s, ns, pfx));
+                        let on = OwnedName::new(s.clone(), ns.clone(), pfx.clone());
+                        let id = match guard(|| on.to_create(&mut target.xot).name_id()) {
+                            Ok(i) => i,
+                            Err(p) => return Err((("panic".into(), p.short()), log.clone())),
+                        };
+                        match target.xot.namespace(&ns) {
+                            Some(nid) => tr!(target.note_ns(&ns, nid, "OwnedName::to_create")),
+                            None => return Err((("lookup-misses-registered".into(), format!("namespace {:?} is not registered after to_create", ns)), log.clone())),
+                        }
+                        tr!(target.note_name(&s, &ns, id, "OwnedName::to_create"));
+                    }
+                }
+                ctx.count("xmlname_layer_calls");
+            }
             10 => {
                 // a rejected document that mentions fresh names: afterwards ids must still be one-to-one
                 fresh += 1;
@@ -472,11 +592,12 @@ fn short_history(rng: &mut Rng, ctx: &mut Ctx) -> Result<(), (Bad, Vec<String>)>
                 let _ = guard(|| {
                     let _h = target.xot.html5();
                 });
+                target.html5 = true;
             }
             9 => {
                 if clone.is_none() {
                     log.push("clone()".to_string());
-                    let c = World { xot: w.xot.clone(), m: w.m.clone() };
+                    let c = World { xot: w.xot.clone(), m: w.m.clone(), html5: w.html5 };
                     clone = Some(c);
                 }
             }
@@ -595,7 +716,7 @@ impl Monitor for C08 {
         vec![Stream::new("long-histories", 4), Stream::new("short-histories", scaled(n, budget))]
     }
     fn rule(&self) -> String {
-        "four long histories (2*10^5 distinct names, 7*10^4 namespaces, 7*10^4 prefixes, 2*10^5 names arriving through parse) with ALL earlier ids re-resolved both ways at 65 535, 65 536, 65 537, 131 072 registrations and at the end, in the store and in a clone of it; short histories of 5-60 steps of add_name / add_name_ns / add_namespace / add_prefix / parse (fresh element, attribute, PI, prefix, namespace names; and documents that reuse a small pool of local names across elements, prefixed and unprefixed attributes, default / redeclared / undeclared default namespaces, with every element and attribute name id read back from the tree and compared with its written expanded name) / rejected parse / html5() / Xot::clone over a pool of hot and fresh strings, with every id <-> string pair and the built-ins re-checked after every step in the store and its clone, and read-only lookups of never-registered strings. Non-trivial = history with >= 5 steps; distinct by hash of the step list".into()
+        "four long histories (2*10^5 distinct names, 7*10^4 namespaces, 7*10^4 prefixes, 2*10^5 names arriving through parse) with ALL earlier ids re-resolved both ways at 65 535, 65 536, 65 537, 131 072 registrations and at the end, in the store and in a clone of it; short histories of 5-60 steps of add_name / add_name_ns / add_namespace / add_prefix / parse (fresh element, attribute, PI, prefix, namespace names; and documents that reuse a small pool of local names across elements, prefixed and unprefixed attributes, default / redeclared / undeclared default namespaces, with every element and attribute name id read back from the tree and compared with its written expanded name) / rejected parse / the xmlname layer (CreateName::name / namespaced / parse_full_name, CreateNamespace::new, OwnedName::to_ref / maybe_to_ref / to_create) / html5() / Xot::clone over a pool of hot and fresh strings, with every id <-> string pair and the built-ins re-checked after every step in the store and its clone, and read-only lookups of never-registered strings. Non-trivial = history with >= 5 steps; distinct by hash of the step list".into()
     }
     fn floors(&self, _tier: Tier) -> Vec<(&'static str, u64)> {
         vec![
@@ -608,6 +729,7 @@ impl Monitor for C08 {
             ("clone_checks", 1_000),
             ("clone_from_checks", 500),
             ("hostile_parses_read_back", 1_000),
+            ("xmlname_layer_calls", 5_000),
         ]
     }
     fn assumptions(&self) -> Vec<String> {
